@@ -1,13 +1,17 @@
 package c10
 
 import (
+	"context"
 	"fmt"
+	"os"
+	"path/filepath"
 	"runtime"
 	"sync"
 	"sync/atomic"
 	"testing"
 	"time"
 
+	"github.com/cilium/hive/script"
 	"github.com/cilium/statedb"
 
 	"verifharness/concw"
@@ -263,6 +267,96 @@ func TestVerif_Probes(t *testing.T) {
 			r.Violation("blocked-after-rejected-registration", 0, map[string]any{"message": "after NewTable was rejected for a duplicate name, a following Commit / NewTable does not complete (root lock left held)"})
 		}
 		r.Case(vkit.NewHash().Str("rejected-registration").Sum(), true)
+	}
+	// a WriteTxn that is refused (it names the table value of a rejected registration: documented panic) must leave nothing
+	// locked, whatever the position of that table among registered ones
+	{
+		db := statedb.New()
+		tabs := concw.NewTables(db, "u", 3)
+		dup, err := statedb.NewTable(db, "u1", concw.IDIndex, concw.TagIndex)
+		if err == nil {
+			r.Violation("duplicate-table-accepted", 0, map[string]any{"message": "NewTable with an existing name did not fail"})
+		} else if dup != nil {
+			for variant, set := range [][]statedb.TableMeta{{dup}, {tabs[0], dup}, {dup, tabs[2]}, {tabs[2], dup, tabs[0], tabs[1]}} {
+				refused := false
+				returned := within(10*time.Second, func() {
+					defer func() { refused = recover() != nil }()
+					w := db.WriteTxn(set...)
+					w.Abort()
+				})
+				r.Count("refused_writetxn_probes", 1)
+				if !returned {
+					r.Violation("blocked-after-refused-writetxn", variant, map[string]any{"message": fmt.Sprintf("WriteTxn over table set variant %d containing an unregistered table neither returns nor panics: an earlier refused WriteTxn left a lock held", variant)})
+					break
+				}
+				if !refused {
+					continue // granted and aborted: nothing to check beyond the locks below
+				}
+				if !within(10*time.Second, func() {
+					w := db.WriteTxn(tabs[0], tabs[1], tabs[2])
+					tabs[0].Insert(w, &concw.Row{ID: "x"})
+					w.Commit()
+				}) {
+					r.Violation("blocked-after-refused-writetxn", variant, map[string]any{"message": fmt.Sprintf("WriteTxn over table set variant %d containing an unregistered table panicked (as documented) but left registered tables locked: a following WriteTxn over all tables is never granted", variant)})
+					break
+				}
+			}
+		}
+		r.Case(vkit.NewHash().Str("refused-writetxn").Sum(), true)
+	}
+	// the library's own script commands open write transactions: on every exit path (success, missing file, malformed document in
+	// the middle, delete of a missing object) the table must be lockable again once the command has returned
+	{
+		db := statedb.New()
+		tabs := concw.NewTables(db, "s", 2)
+		dir := t.TempDir()
+		files := map[string]string{
+			"good.yaml": "id: a\nv: 1\n---\nid: b\nv: 2\n",
+			"bad.yaml":  "id: c\nv: 3\n---\nid: d\nv: [not, a, number]\n",
+			"junk.yaml": "{{{{",
+		}
+		for n, c := range files {
+			if err := os.WriteFile(filepath.Join(dir, n), []byte(c), 0o644); err != nil {
+				t.Fatal(err)
+			}
+		}
+		state, err := script.NewState(context.Background(), dir, nil)
+		if err != nil {
+			t.Fatal(err)
+		}
+		cmds := map[string]script.Cmd{"insert": statedb.InsertCmd(db), "delete": statedb.DeleteCmd(db)}
+		for _, step := range [][]string{
+			{"insert", "s0", "good.yaml"}, {"insert", "s0", "good.yaml", "missing.yaml"}, {"insert", "s0", "good.yaml", "bad.yaml"}, {"insert", "s0", "junk.yaml"},
+			{"delete", "s0", "bad.yaml"}, {"delete", "s0", "missing.yaml"}, {"delete", "s0", "good.yaml"}, {"delete", "s0", "good.yaml"}, {"insert", "nosuchtable", "good.yaml"}, {"insert", "s1", "good.yaml", "junk.yaml"},
+		} {
+			var cmdErr error
+			finished := within(10*time.Second, func() {
+				defer func() {
+					if p := recover(); p != nil {
+						cmdErr = fmt.Errorf("panic: %v", p)
+					}
+				}()
+				var wf script.WaitFunc
+				wf, cmdErr = cmds[step[0]].Run(state, step[1:]...)
+				if wf != nil && cmdErr == nil {
+					_, _, cmdErr = wf(state)
+				}
+			})
+			r.Count("script_command_probes", 1)
+			if !finished {
+				r.Violation("script-command-stuck", 0, map[string]any{"message": fmt.Sprintf("db/%v did not return", step)})
+				break
+			}
+			if !within(10*time.Second, func() {
+				w := db.WriteTxn(tabs[1], tabs[0])
+				tabs[0].Insert(w, &concw.Row{ID: "probe"})
+				w.Abort()
+			}) {
+				r.Violation("blocked-after-script-command", 0, map[string]any{"message": fmt.Sprintf("after db/%v returned (error: %v) a WriteTxn over the tables is never granted: the command left its write transaction open", step, cmdErr)})
+				break
+			}
+		}
+		r.Case(vkit.NewHash().Str("script-commands").Sum(), true)
 	}
 	// single goroutine, duplicate tables in any order
 	db := statedb.New()
